@@ -1,8 +1,10 @@
 package scen
 
 import (
+	"bytes"
 	"context"
 	"fmt"
+	"io"
 	"strings"
 	"sync"
 	"time"
@@ -85,6 +87,7 @@ func init() {
 			add("ws-fin-dial", 1+b, map[string]int{"ws": 1, "calls": 1, "reconnect": 1, "fault": int(vnet.FIN), "ydial": 1})
 			add("ws-fin-dialfail", 1+b, map[string]int{"ws": 1, "calls": 1, "reconnect": 1, "fault": int(vnet.FIN), "dialfail": 2})
 			add("http", 1+b, map[string]int{"ws": 0, "calls": 1})
+			add("custom", 1+b, map[string]int{"ws": 0, "custom": 1, "calls": 1})
 			return ps
 		},
 		Body: closeBody,
@@ -109,6 +112,13 @@ func closeBody(s *vsched.Sched, p Param) {
 			opts = append(opts, jsonrpc.WithNoReconnect())
 		}
 		closer, err = w.WS("T", &cli, opts...)
+	} else if p.I("custom") == 1 {
+		// custom transport: the request body is handed straight to the server's HandleRequest
+		closer, err = jsonrpc.NewCustomClient("T", []interface{}{&cli}, func(ctx context.Context, body []byte) (io.ReadCloser, error) {
+			var buf bytes.Buffer
+			w.RPC.HandleRequest(ctx, bytes.NewReader(body), &buf)
+			return io.NopCloser(&buf), nil
+		})
 	} else {
 		closer, err = w.HTTPClient("T", &cli)
 	}
